@@ -225,6 +225,14 @@ _add("C11", "(*main.clientApp).init", ["every-tag-gets-a-chunk-limit"])
 _add("C12", "(*main.clientApp).init", ["every-tag-gets-a-chunk-limit"])
 _add("C12", "(*main.clientApp).init$3")
 _add("C14", "sts.InitPaths")
+_add("C07", B+"recover", ["complete-recovery-reports-no-error", "finish-needs-positive", "finish-answers-of-this-poll", "notfound-is-requeued-whole", "failed-is-resent-whole", "resumed-file-keeps-its-announced-predecessor"])
+_add("C07", "(*store.Local).ShouldIgnore")
+_add("C04", "(*log.rollingFile).search")
+_add("C04", "(*log.FileIO).wasWritten")
+_add("C06", S+"buildCache", ["log-refill-never-overwrites", "refill-window", "window-is-recorded"])
+_add("C09", S+"Received")
+_add("C13", "(*http.Server).routeData")
+_add("C13", "payload.NewDecoder", ["name-and-predecessor-of-every-part-are-converted"])
 # round 4: seeds that only the check of another property reported
 _add("C02", S+"partReceived", ["same-version-only", "known-file-answers-yes", "yes-needs-record-or-known-file"])
 _add("C04", "(*queue.sortedFile).getPrevName")
